@@ -17,7 +17,7 @@ Image(c) == BF!Canon(c)
 
 FileNames == << <<97>>, <<98, 46, 108, 122>>, <<130, 160, 149, 92, 46, 98>> >>      \* "a", "b.lz", 2-byte chars + ".b"
 Body(i, len) == [j \in 1..len |-> (i * 71 + j * 13) % 256]
-Lens == {0, 1, 4, 5, 33}
+Lens == IF Quick THEN {0, 1, 4, 5, 33} ELSE {0, 1, 4, 5, 32, 33, 96}
 ErrLens == {0, 1, 5}
 Values(n, lens) == { [i \in 1..n |-> <<FileNames[i], Body(i, ls[i])>>] : ls \in [1..n -> lens] }
 MaxN == 3
@@ -71,7 +71,7 @@ RndCase(seed) ==
       lay |-> [padded |-> pd, items |-> (IF pd THEN <<>> ELSE Lead) \o items,
                recs |-> PermAcc([i \in 1..n |-> i], SubSeq(r, n + 1, 2 * n), 1, <<>>), extra |-> r[5 * n + 7] % 2 = 0]]
 RndSeeds == IF Quick THEN {} ELSE { (4000 + 157 * k + 29 * SeedBase) % 65537 : k \in 1..6 }
-RndSteps == 300
+RndSteps == 2000
 
 VARIABLE c
 Init == c = [k |-> "root"]
